@@ -11,7 +11,11 @@ Monitors and oracles live in vlib/c08_mon.py:
   negative duration/power must raise and must not leave a driver command (refusal_no_leak).
 * sw_pulse_off / hold_limit: offline scan of the driver log: a software-timed pulse and a hold on a coil with
   max_hold_duration are followed by `disable` by their deadline (virtual time).
-* dout_limits              : pulses of driver-type digital outputs against the DriverConfig they registered.
+* dout_limits              : pulses of driver-type digital outputs against the DriverConfig they registered; a
+  negative duration must be refused.
+* dout_sw_pulse_off        : a driver-type digital output switched on for a software-timed pulse (enable issued from
+  inside DigitalOutput.pulse) sees `disable` by t+pulse_ms whatever requests (short hardware pulses included)
+  arrive in between; only a later software-timed pulse, enable() or disable() replaces the deadline.
 """
 
 PROPERTY = "C08"
@@ -43,6 +47,9 @@ ASSUMPTIONS = [
     "digital outputs of type driver are not coils with an owner-configured envelope: their commands are judged (own "
     "clause dout_limits / own signature) only against the DriverConfig they registered with the platform "
     "(max_pulse_ms 255) and against 'negative duration'",
+    "digital outputs: a short (hardware-timed) pulse request does not replace the pending switch-off of a "
+    "software-timed pulse (on /repo the disable comes at the original deadline); a later software-timed pulse "
+    "restarts the time, enable() makes the output permanent, disable() ends it",
     "an enable sent straight to the platform driver by SoftwareEosRepulseManager is judged like any other hold "
     "(own signature), although a hardware rule would hold the coil just as long",
     "non-numeric / fractional-ms parameters: either refusal or an in-envelope command is accepted",
@@ -60,12 +67,14 @@ HORIZONS = {"settle_after_last_deadline_s": 0.5, "max_settle_s": 1500}
 TIERS = {"quick": {"cases": 2000, "batch": 50, "case_timeout": 60},
          "thorough": {"cases": 30000, "batch": 250, "case_timeout": 120}}
 MIN_EVALS = {"quick": {"hw_limits": 20000, "refusal": 40000, "refusal_no_leak": 8000, "sw_pulse_off": 800,
-                       "hold_limit": 800, "rule_limits": 500, "rule_refusal": 2000, "dout_limits": 500},
+                       "hold_limit": 800, "rule_limits": 500, "rule_refusal": 2000, "dout_limits": 500,
+                       "dout_sw_pulse_off": 800},
              "thorough": {"hw_limits": 300000, "refusal": 600000, "refusal_no_leak": 120000, "sw_pulse_off": 12000,
-                          "hold_limit": 12000, "rule_limits": 8000, "rule_refusal": 30000, "dout_limits": 8000}}
+                          "hold_limit": 12000, "rule_limits": 8000, "rule_refusal": 30000, "dout_limits": 8000,
+                          "dout_sw_pulse_off": 12000}}
 SHRINK_KEYS = ["ops"]
 
-GEN_VERSION = 1
+GEN_VERSION = 2
 
 # The harness shrinks EVERY violating case (20 s budget each).  While a defect that almost every case trips is still
 # unrepaired that would cost minutes, so shrink candidates (= run_case calls whose case object is not the one gen_case
@@ -175,6 +184,23 @@ def _gen_kwargs_noise(rng):
     return kw
 
 
+def _gen_dout_req(rng):
+    """[how, what, pulse_ms]: how = api | handler (event_* called with kwargs) | post (real control event)."""
+    how = rng.choice(["api", "handler", "post"])
+    k = rng.random()
+    if k < 0.40:
+        return [how, "pulse", rng.choice([256, 300, 500, 1000, 3000])]        # software-timed
+    if k < 0.70:
+        return [how, "pulse", rng.choice([1, 20, 100, 255])]                    # hardware-timed
+    if k < 0.80:
+        return [how, "enable", None]
+    if k < 0.90:
+        return [how, "disable", None]
+    if how == "post":       # a refusal inside the event system would crash MPF and end the case
+        return [how, "pulse", rng.choice([0, 255, 256, 10 ** 5])]
+    return [how, "pulse", rng.choice([0, -5, -1000, 10 ** 5, 1.5, "10", True])]
+
+
 def _gen_api_ops(rng, case, n_ops):
     coils = case["coils"]
     names = sorted(coils)
@@ -231,8 +257,13 @@ def _gen_api_ops(rng, case, n_ops):
             ops.append(["dual", which, rng.choice([None, 10, 300, -5, 10 ** 5]),
                         rng.choice([None, 0.5, 1.0, -0.5, 2])])
         elif k < 0.85:
-            ops.append(["dout", rng.choice(["pulse", "pulse", "enable", "disable"]),
-                        rng.choice([1, 10, 255, 256, 1000, 0, -5, 10 ** 5])])
+            # driver-type digital outputs: single request, or a burst of requests inside one software-timed window
+            do = rng.choice(["do1", "do2"])
+            if rng.random() < 0.5:
+                ops.append(["dout", do] + _gen_dout_req(rng))
+            else:
+                ops.append(["dout_burst", do, [_gen_dout_req(rng) + [rng.choice([0, 0.05, 0.1, 0.1, 0.3, 1.0])]
+                                               for _ in range(rng.choice([2, 3, 3, 4]))]])
         elif k < 0.88:
             if ex.get("light"):
                 ops.append(["light", rng.choice([0, 0.0, 0.05, 0.1, 0.5, 1.0, 1.0])])
@@ -453,7 +484,10 @@ def _api_config(case):
         "settings": {"c08_power": {"label": "c08 power", "sort": 1, "key_type": "float", "default": 1.0,
                                    "values": {v: "v%s" % i for i, v in enumerate(ex["power_values"])}}},
         "dual_wound_coils": {"dw": {"main_coil": ex["dual"][0], "hold_coil": ex["dual"][1]}},
-        "digital_outputs": {"do1": {"number": "40", "type": "driver"}},
+        "digital_outputs": {nm: {"number": str(40 + i), "type": "driver",
+                                 "enable_events": "c08_do_enable_%s" % nm,
+                                 "disable_events": "c08_do_disable_%s" % nm}
+                            for i, nm in enumerate(("do1", "do2"))},
         "coil_player": {"c08_cp_%s" % nm: {nm: s} for nm, s in ex["coil_player"].items()},
         "show_player": {"c08_show_start": {"c08_show": {"loops": 0}}},
     }
@@ -697,6 +731,28 @@ def _do_op(vm, case, op, mon, obs_extra):
         raise MpfCrash(repr(e)) from e
 
 
+def _dout_req(vm, m, obs_extra, name, how, what, ms):
+    do = m.digital_outputs.get(name) if hasattr(m.digital_outputs, "get") else m.digital_outputs[name]
+    if do is None:
+        return
+    ms = _num(ms)
+    if how == "post" and what != "pulse":
+        # (config_spec has enable_events/disable_events for digital outputs but no pulse_events: the pulse handler
+        #  event_pulse is exercised by calling it with keyword arguments the way the event system would)
+        m.events.post("c08_do_%s_%s" % (what, name))
+        vm.advance(0)
+    elif how in ("handler", "post"):
+        if what == "pulse":
+            _call(obs_extra, do.event_pulse, pulse_ms=ms, priority=0)
+        else:
+            _call(obs_extra, getattr(do, "event_" + what), priority=0)
+    else:
+        if what == "pulse":
+            _call(obs_extra, do.pulse, ms)
+        else:
+            _call(obs_extra, getattr(do, what))
+
+
 def _do_op_inner(vm, case, op, mon, obs_extra):
     m = vm.machine
     kind = op[0]
@@ -723,13 +779,14 @@ def _do_op_inner(vm, case, op, mon, obs_extra):
             _call(obs_extra, dw.disable)
         return
     if kind == "dout":
-        do = m.digital_outputs["do1"]
-        if op[1] == "pulse":
-            _call(obs_extra, do.event_pulse, pulse_ms=_num(op[2]))
-        elif op[1] == "enable":
-            _call(obs_extra, do.enable)
-        else:
-            _call(obs_extra, do.disable)
+        if len(op) == 3:        # generator version 1: ["dout", what, ms]
+            op = ["dout", "do1", "handler", op[1], op[2]]
+        _dout_req(vm, m, obs_extra, op[1], op[2], op[3], op[4])
+        return
+    if kind == "dout_burst":
+        for how, what, ms, dt in op[2]:
+            _dout_req(vm, m, obs_extra, op[1], how, what, ms)
+            vm.advance(float(dt))
         return
     if kind == "light":
         if "l1" in m.lights:
